@@ -105,6 +105,16 @@ namespace sim
 
 	void forward_packet(aux::packet p);
 
+#ifdef LIBSIMULATOR_VERIF
+	namespace verif
+	{
+		// verification hook (off unless LIBSIMULATOR_VERIF is defined): when
+		// set, called by simulation::run() after every executed handler
+		SIMULATOR_DECL extern void (*on_step)(void*);
+		SIMULATOR_DECL extern void* on_step_ctx;
+	}
+#endif
+
 	struct simulation;
 	struct configuration;
 	struct queue;
